@@ -290,6 +290,65 @@ def rule_checked_read(m):
                                      '`%s` is filled by %s at %s but used at %s without the success of that read having '
                                      'been tested: on a file cut inside a record the stale / indeterminate value becomes '
                                      'an edge' % (vname, kind, f.nloc(call), f.nloc(u))))
+    # ---- the read primitive itself reports every short read
+    for f in io_functions(m, READ):
+        res.sites += 1
+        tt = Terms(f)
+        disp = f.display()
+        sparam = ('var', f.params[0])
+        reads = [n for n in f.nodes if n['k'] == 'CXXMemberCallExpr' and 'callee' in n and f.unit.decl(n['callee'])['name'] == 'read' and
+                 tt.t(n.get('obj', -1)) == sparam]
+        sget = [n for n in f.nodes if n['k'] == 'CXXMemberCallExpr' and 'callee' in n and f.unit.decl(n['callee'])['name'] in ('sgetn', 'xsgetn', 'readsome')]
+        if len(reads) == 1 and not sget:
+            res.ok(dict(function=disp, primitive='istream::read(sizeof(T)): sets failbit when fewer bytes are available') if len(res.samples) < 9 else None,
+                   fn=disp)
+            continue
+        if len(sget) == 1 and not reads:
+            # unformatted buffer read: the function must fail the stream itself whenever count != sizeof(T)
+            cnt = None
+            for n in f.nodes:
+                if n['k'] == 'DeclStmt':
+                    for ix, d in enumerate(n['decls']):
+                        if ix < len(n['c']) and n['c'][ix] >= 0 and sget[0]['i'] in f.descendants(n['c'][ix]):
+                            cnt = ('var', d)
+            sets = [n for n in f.nodes if n['k'] == 'CXXMemberCallExpr' and 'callee' in n and f.unit.decl(n['callee'])['name'] == 'setstate']
+            if cnt is None or len(sets) != 1:
+                res.broken('F-IO.READ: %s reads through the stream buffer without a recognisable failure report' % disp)
+                continue
+            from .rules_pair import region_atoms, eval_order as _ev
+            size_t = ('sizeof',)
+            bad_counts = []
+            for c in (0, 1, 3):            # bytes delivered, all smaller than sizeof(T) >= 4 of the indices
+                fails = True
+                for at in region_atoms(f, tt, sets[0]['i']):
+                    at = strip_conv_call(at)
+                    env = {cnt: c}
+                    for st in subterms(at):
+                        if st[0] == 'sizeof':
+                            env[st] = 4
+                    v = _ev(at, env)
+                    if v is None:
+                        fails = None
+                        break
+                    if not v:
+                        fails = False
+                if fails is None:
+                    bad_counts = None
+                    break
+                if not fails:
+                    bad_counts.append(c)
+            if bad_counts is None:
+                res.broken('F-IO.READ: the failure condition of %s cannot be evaluated over the byte count' % disp)
+            elif bad_counts:
+                res.fail(Finding('F-IO.READ', disp, 'short read reported as success', f.nloc(sets[0]['i']),
+                                 'the stream is put into the failed state only under `%s`: when the buffer delivers %s of the sizeof(T) '
+                                 'bytes the read is reported as successful and the value keeps stale bytes - a file cut inside a value '
+                                 'yields an invented field' % (f.expr_text(f.branch_atom(list(f.region(sets[0]['i']))[0][0]))[:40],
+                                                              ' or '.join(str(c) for c in bad_counts))))
+            else:
+                res.ok(dict(function=disp, primitive='sgetn + setstate whenever count != sizeof(T)'), fn=disp)
+            continue
+        res.broken('F-IO.READ: expected readBinaryValue to read with one istream::read (or one sgetn with its own failure report)')
     res.require_sites(10, 'uses of read buffers')
     return res
 
@@ -1397,6 +1456,23 @@ def rule_tokeniser_schema(m):
                 if t[0] == 'mcall' and t[1] in ('std::basic_string::find_first_not_of', 'std::basic_string::find_first_of') and t[2] == sv:
                     pos.append((('var', n['decls'][0]), t))
         if len(pos) != 5:
+            # whatever the shape: the label is the REST of the line, so some field must be taken to the end of the string
+            # (substr(p) / substr(p, npos)); if every field is cut by a length computed from a delimiter search, a label
+            # that contains a delimiter loses everything after its first word
+            subs_all = [n for n in f.nodes if n['k'] == 'CXXMemberCallExpr' and 'callee' in n and
+                        f.unit.decl(n['callee'])['name'] == 'substr' and tt.t(n.get('obj', -1)) == sv]
+            to_end = []
+            for n in subs_all:
+                a = [x for x in n.get('args', []) if not f.nodes[x].get('defaultarg')]
+                if len(a) == 1 or (len(a) == 2 and 'npos' in str(tt.t(a[1]))):
+                    to_end.append(n)
+            if subs_all and not to_end and not any(f.unit.function_for_decl(n['callee']) for n in f.nodes
+                                                   if n['k'] == 'CallExpr' and 'callee' in n and f.unit.decl(n['callee'])['tname'].startswith(IO)):
+                res.fail(Finding('F-IO.TOKSCHEMA', f.display(), 'label field', f.nloc(subs_all[-1]['i']),
+                                 'every field the tokeniser extracts is cut at a length computed from a delimiter search (`%s`): no field '
+                                 'extends to the end of the line, so a label that contains a blank loses everything after its first word'
+                                 % f.expr_text(subs_all[-1]['i'])[:60]))
+                continue
             res.broken('F-IO.TOKSCHEMA: tokeniser of %s does not compute five positions with find_first_(not_)of' % f.display())
             continue
         for k, (pv, t) in enumerate(pos):
